@@ -35,15 +35,15 @@ CONFIG = {
         "iri_no_backslash",
         "prefix_pick_sound", "prefix_pick_unique", "prefix_pick_longest", "prefixed_name_sound",
         "bare_literal_sound_partial",
-        "list_item_spec", "list_sound", "list_cell_unique_pred", "unlabelled_sound_partial", "unlabelled_in_arcs", "unlabelled_one_graph",
-        "cycle_tail_witness", "cycle_has_labelled_refuted",
+        "list_item_spec", "list_sound", "list_cell_unique_pred", "list_cell_one_rest", "multi_rest_witness", "unlabelled_sound_partial", "unlabelled_in_arcs", "unlabelled_one_graph",
+        "cycle_tail_witness", "cycle_has_labelled", "cycle_has_labelled_refuted", "cycle_has_labelled_iff",
     ],
     "native_ok": [
         "integer_safe", "boolean_safe", "pn_local_safe", "pn_prefix_safe", "bnode_label_safe",
         "decimal_safe_verdict", "double_safe_verdict", "langtag_safe_verdict",
         "turtle_integer_decimal_disjoint", "turtle_integer_double_disjoint", "turtle_decimal_double_disjoint",
         "iri_no_backslash", "prefixed_name_sound", "bare_literal_sound_partial",
-        "cycle_tail_witness", "cycle_has_labelled_refuted",
+        "cycle_tail_witness", "cycle_has_labelled_refuted", "cycle_has_labelled_iff", "multi_rest_witness",
     ],
     "trivial_re": r"^n=0 |^bad-",
     "rule": "datasets assembled from shape fragments (blank-node trees, shared / unreferenced nodes, cycles with and without tails, "
